@@ -745,6 +745,69 @@ fn prop_eval(name_idx: usize, value: &Value, scalar: &RefScalar, contains: bool,
     }
 }
 
+/// `event_match` on a property that is absent or not a string: never holds, "even if pattern is `*`"
+/// (spec, conditions for push rules) — for the whole-value keys and for `content.body`
+fn nonstring_eval(event: &Value, key: &str, pattern: &str, t: &mut Tally) -> Vec<(String, String)> {
+    let (ctx, _) = base_ctx("!r1:x", 2, "dn");
+    let cond = PushCondition::EventMatch { key: key.into(), pattern: pattern.into() };
+    let raw = raw_of(event);
+    t.transitions += 2;
+    let flat_real = FlattenedJson::from_raw(&raw);
+    let got = catch(|| cond.applies(&flat_real, &ctx));
+    let name = key.strip_prefix("content.").unwrap_or(key).replace("\\.", ".");
+    let kind = match event["content"].get(&name) {
+        None => "absent",
+        Some(Value::Null) => "null",
+        Some(Value::Bool(_)) => "bool",
+        Some(Value::Number(_)) => "number",
+        Some(Value::Array(_)) => "array",
+        Some(Value::String(_)) => return vec![],
+        Some(_) => "object",
+    };
+    if let Some(v) = wire_agrees("cond/event_match-non-string", &cond, &flat_real, &ctx, &got) {
+        return vec![v];
+    }
+    match got {
+        Err(p) => vec![(panic_sig(&p, "cond/event_match-non-string"), p.text.clone())],
+        Ok(g) => {
+            t.outcome("cond/event_match-non-string", if g { "holds" } else { "does-not-hold" });
+            if g {
+                vec![(
+                    format!("cond/event_match/{kind}-property/{}/should-not-hold", if name == "body" { "word" } else { "whole" }),
+                    format!("{event}: event_match key {key:?} pattern {pattern:?} holds although the property is {kind}"),
+                )]
+            } else {
+                vec![]
+            }
+        }
+    }
+}
+
+fn part_b5(report: &Report) {
+    let mut t = Tally::new();
+    let mut values: Vec<Option<Value>> = vec![None];
+    values.extend(value_menu().into_iter().filter(|v| !v.is_string()).map(Some));
+    for v in &values {
+        for (name, key) in [("p", "content.p"), ("body", "content.body"), ("a.b", "content.a\\.b")] {
+            for pattern in ["*", "", "?", "a", "**", "*?", "?*", "null", "true", "1", "[]"] {
+                let mut content = serde_json::Map::new();
+                content.insert("other".into(), json!("a"));
+                if let Some(v) = v {
+                    content.insert(name.to_owned(), v.clone());
+                }
+                let event = json!({"type": "m.room.message", "sender": "@alice:x", "content": content});
+                t.states += 1;
+                t.nontrivial += 1;
+                let case = || json!({"part": "event-match-non-string", "event": event, "key": key, "pattern": pattern});
+                for (sig, detail) in nonstring_eval(&event, key, pattern, &mut t) {
+                    report.violation(&sig, || detail, case);
+                }
+            }
+        }
+    }
+    report.merge(t);
+}
+
 fn part_b2(report: &Report) {
     let scalars = scalar_menu();
     let values = value_menu();
@@ -1534,6 +1597,9 @@ fn replay(case: &Value) -> Vec<(String, String)> {
             }
         }
         "select" => select_replay(case),
+        "event-match-non-string" => {
+            nonstring_eval(&case["event"], case["key"].as_str().unwrap_or(""), case["pattern"].as_str().unwrap_or(""), &mut t)
+        }
         "hostile" => hostile_eval(case["label"].as_str().unwrap_or(""), case["document"].as_str().unwrap_or(""), &mut t),
         other => machinery_error(&format!("unknown part {other:?} in replay")),
     }
@@ -1560,7 +1626,8 @@ fn main() {
          all reference paths + 56 fixed probe paths vs reference flatten; EventPropertyIs/Contains over 12 scalars x 36 \
          event values x 3 property names; RoomMemberCount 5 operators x counts 0..3 x thresholds 0..3 x struct/wire \
          spellings; SenderNotificationPermission 2 senders x 5 users entries x 3 users_default x 3 notifications.room \
-         (+ 10 cases without power levels / other key / missing or invalid sender, not compared). C: every ruleset with 0..2 ordered rules per kind from a per-kind menu \
+         (+ 10 cases without power levels / other key / missing or invalid sender, not compared); EventMatch with 11 patterns \
+         (`*`, empty, `?`, ...) on a property that is absent / null / bool / number / array / object (never holds). C: every ruleset with 0..2 ordered rules per kind from a per-kind menu \
          (sizes {:?}; always-true, always-false, body-dependent, member-count + property conditions; literal content \
          patterns; room / sender ids) x enabled flags x 6 events x 2 contexts through get_match (and get_actions in the \
          first context) vs first enabled rule in kind order whose reference conditions hold; thorough tier also the \
@@ -1588,6 +1655,7 @@ fn main() {
     timed("B2-property", &|| part_b2(&report));
     timed("B3-member-count", &|| part_b3(&report));
     timed("B4-sender-permission", &|| part_b4(&report));
+    timed("B5-event-match-non-string", &|| part_b5(&report));
     timed("C-rule-selection", &|| part_c(&report, args.tier));
     timed("D-hostile-events", &|| part_d(&report));
     report.set("part_wall_s", Value::Object(walls));
